@@ -353,6 +353,7 @@ pub fn proxy_chain<const M: usize, const XS: bool>(nd: &mut Nd) {
         (6, _) => assert!(same, "C12.chain_form_same_frame_as_plain[more flag]"),
         _ => assert!(same, "C12.chain_form_same_frame_as_plain"),
     }
+    cover!(nd, len > 0, "the chain form enqueued a frame that was compared");
     core::mem::forget(c);
 }
 
@@ -405,5 +406,6 @@ pub fn proxy_ext<const M: usize, const XS: bool>(nd: &mut Nd) {
         (5, _) | (9, _) => assert!(same, "C12.chain_extension_same_frame_as_plain[renamed parameter]"),
         _ => assert!(same, "C12.chain_extension_same_frame_as_plain"),
     }
+    cover!(nd, len > p.n, "the extension form enqueued a second frame that was compared");
     core::mem::forget(c);
 }
